@@ -2,7 +2,7 @@
 the reference array each one denotes (computed by mc.refmodel, never by pyttb).
 
 descriptor forms (all values explicit or derived deterministically):
-  {"kind":"tensor",   "shape":[..], "vals":[F-order] | "pat":[0/1..], "vseed":int, "grown":bool (built by growth)}
+  {"kind":"tensor",   "shape":[..], "vals":[F-order] | "pat":[0/1..], "vseed":int, "grown":bool (built by growth), "dtype":str (storage dtype)}
   {"kind":"sptensor", ... same ..., "order":[perm of the stored nonzeros] | null}
   {"kind":"ktensor",  "shape":[..], "rank":R, "weights":[..], "salt":int, "zero_col":[mode,col]|null}
   {"kind":"ttensor",  "shape":[..], "core_shape":[..], "core":"dense"|"sparse", "core_pat":[..]|null, "salt":int}
@@ -84,12 +84,28 @@ def ref_array(d):
     raise ValueError(k)
 
 
+def _cast(a, d):
+    """Optional storage dtype of a dense / sparse holder ("dtype": "int64" | "int32" | "int8" | "bool" | ...).
+    The reference array stays float64 (ref_array); the caller must only use dtypes that hold the values exactly."""
+    dt = d.get("dtype")
+    return a if not dt else a.astype(np.dtype(dt))
+
+
 def build(d):
     """Fresh real pyttb object for the descriptor."""
     import pyttb as ttb
 
     k = d["kind"]
     shape = tuple(d["shape"]) if "shape" in d else None
+    if k == "tensor" and d.get("dtype") and not d.get("grown"):
+        a = _cast(rm.arr(shape, _vals(d)), d)
+        return ttb.tensor(np.ascontiguousarray(a) if d.get("c_order") else np.asfortranarray(a))
+    if k == "sptensor" and d.get("dtype"):
+        subs, vals = sp_parts(shape, _vals(d), d.get("order"))
+        if len(subs) == 0:
+            return ttb.sptensor(shape=shape)
+        return ttb.sptensor(np.array(subs, dtype=int).reshape(len(subs), len(shape)),
+                            _cast(np.array(vals, dtype=float), d).reshape(-1, 1), shape)
     if k == "tensor":
         a = rm.arr(shape, _vals(d))
         if d.get("grown"):
